@@ -524,8 +524,118 @@ theorem exec_fresh (F : CloneFacts) (hF : F.fresh = true) : ∀ (ops : List Op) 
 
 def pureQ (d : List Stmt) (q : Query) (rej : Bool) (viaV viaS : Text) : QObs :=
   match selectQ d q with
-  | .error _ => { selected := none, reversedSelected := nameOf (selectQ d.reverse q), refRejected := rej, viaVerify := viaV, viaSkip := viaS, copyEqual := true, intact := true }
-  | .ok s => { selected := some s.name, reversedSelected := nameOf (selectQ d.reverse q), refRejected := rej, viaVerify := viaV, viaSkip := viaS, copyEqual := true, intact := true }
+  | .error _ => { selected := none, reversedSelected := nameOf (selectQ d.reverse q), refRejected := rej, viaVerify := viaV, viaSkip := viaS, copyEqual := true, intact := true, independent := true }
+  | .ok s => { selected := some s.name, reversedSelected := nameOf (selectQ d.reverse q), refRejected := rej, viaVerify := viaV, viaSkip := viaS, copyEqual := true, intact := true, independent := true }
+
+/-- which handed-out copy an operation writes through -/
+def Op.onHandle : Op → Option Nat
+  | .select _ => none
+  | .writeSlice h _ _ => some h
+  | .writeMap h _ => some h
+  | .writeScalars h _ _ _ => some h
+
+/-- no copy is ever taken back -/
+theorem step_length_le (F : CloneFacts) (st : State) (op : Op) :
+    st.handles.length ≤ (step F st op).handles.length := by
+  cases op with
+  | select q =>
+    simp only [step]
+    cases selectQ st.doc q with
+    | error e => exact Nat.le_refl _
+    | ok s => simp
+  | writeSlice h f v =>
+    simp only [step]
+    cases st.handles[h]? with
+    | none => exact Nat.le_refl _
+    | some c =>
+      simp only []
+      cases c.cell f with
+      | own v0 => simp
+      | shared o g => exact Nat.le_refl _
+  | writeMap h v =>
+    simp only [step]
+    cases st.handles[h]? with
+    | none => exact Nat.le_refl _
+    | some c =>
+      simp only []
+      cases c.override with
+      | own v0 => simp
+      | shared o => exact Nat.le_refl _
+  | writeScalars h name level g =>
+    simp only [step]
+    cases st.handles[h]? with
+    | none => exact Nat.le_refl _
+    | some c => simp
+
+theorem exec_length_le (F : CloneFacts) : ∀ (ops : List Op) (st : State),
+    st.handles.length ≤ (exec F st ops).handles.length := by
+  intro ops
+  induction ops with
+  | nil => intro st; exact Nat.le_refl _
+  | cons op r ih =>
+    intro st
+    have h2 := ih (step F st op)
+    simp only [exec, List.foldl_cons] at h2 ⊢
+    exact Nat.le_trans (step_length_le F st op) h2
+
+/-- an operation that does not write through copy `k` leaves the cells of copy `k` as they are
+(whatever the clone facts) -/
+theorem step_other (F : CloneFacts) (st : State) (op : Op) (k : Nat) (hk : k < st.handles.length)
+    (hne : op.onHandle ≠ some k) : (step F st op).handles[k]? = st.handles[k]? := by
+  cases op with
+  | select q =>
+    simp only [step]
+    cases selectQ st.doc q with
+    | error e => rfl
+    | ok s => exact List.getElem?_append_left hk
+  | writeSlice h f v =>
+    have hhk : h ≠ k := fun e => hne (by rw [Op.onHandle, e])
+    simp only [step]
+    cases st.handles[h]? with
+    | none => rfl
+    | some c =>
+      simp only []
+      cases c.cell f with
+      | own v0 => exact List.getElem?_set_ne hhk
+      | shared o g => rfl
+  | writeMap h v =>
+    have hhk : h ≠ k := fun e => hne (by rw [Op.onHandle, e])
+    simp only [step]
+    cases st.handles[h]? with
+    | none => rfl
+    | some c =>
+      simp only []
+      cases c.override with
+      | own v0 => exact List.getElem?_set_ne hhk
+      | shared o => rfl
+  | writeScalars h name level g =>
+    have hhk : h ≠ k := fun e => hne (by rw [Op.onHandle, e])
+    simp only [step]
+    cases st.handles[h]? with
+    | none => rfl
+    | some c => exact List.getElem?_set_ne hhk
+
+theorem exec_other (F : CloneFacts) (k : Nat) : ∀ (ops : List Op) (st : State), k < st.handles.length →
+    (∀ op ∈ ops, op.onHandle ≠ some k) → (exec F st ops).handles[k]? = st.handles[k]? := by
+  intro ops
+  induction ops with
+  | nil => intro st _ _; rfl
+  | cons op r ih =>
+    intro st hk hall
+    have h1 := step_other F st op k hk (hall op (by simp))
+    have h2 := ih (step F st op) (Nat.lt_of_lt_of_le hk (step_length_le F st op)) (fun o ho => hall o (by simp [ho]))
+    simp only [exec, List.foldl_cons] at h2 ⊢
+    exact h2.trans h1
+
+theorem scramble_onHandle (mark : Text) (markS : String) (doc : List Stmt) (h : Nat) (c : Copy) :
+    ∀ op ∈ scrambleOpsWith mark markS doc h c, op.onHandle = some h := by
+  intro op hop
+  simp only [scrambleOpsWith, List.mem_cons, List.not_mem_nil, or_false] at hop
+  rcases hop with rfl | rfl | rfl | rfl | rfl <;> rfl
+
+theorem step_select_length (F : CloneFacts) (st : State) (q : Query) (s : Stmt) (hs : selectQ st.doc q = .ok s) :
+    (step F st (.select q)).handles.length = st.handles.length + 1 := by
+  simp [step, hs]
 
 theorem runQuery_fresh (F : CloneFacts) (hF : F.fresh = true) (d : List Stmt) (st : State) (hI : Inv st)
     (hd : st.doc = d) (q : Query) (rej : Bool) (viaV viaS : Text) :
@@ -537,15 +647,37 @@ theorem runQuery_fresh (F : CloneFacts) (hF : F.fresh = true) (d : List Stmt) (s
   | error e => exact ⟨rfl, hd, hI⟩
   | ok s =>
     simp only []
+    have hs0 : selectQ st.doc q = .ok s := by rw [hd]; exact hs
     have h1 := step_fresh F hF st hI (.select q)
     have h2 := exec_fresh F hF (scrambleOps (step F st (.select q)).doc st.handles.length (clone F q.isBlob s))
       (step F st (.select q)) h1.2
-    have h3 := step_fresh F hF _ h2.2 (.select q)
+    have hlen1 : (step F st (.select q)).handles.length = st.handles.length + 1 := step_select_length F st q s hs0
+    have hlen2 := exec_length_le F (scrambleOps (step F st (.select q)).doc st.handles.length (clone F q.isBlob s))
+      (step F st (.select q))
     have hdoc2 : (exec F (step F st (.select q)) (scrambleOps (step F st (.select q)).doc st.handles.length
         (clone F q.isBlob s))).doc = d := by rw [h2.1, h1.1, hd]
-    refine ⟨?_, by rw [h3.1, hdoc2], h3.2⟩
     rw [hdoc2, hs]
-    simp only [(clone_fresh F hF q.isBlob s _).2]
+    simp only []
+    generalize exec F (step F st (.select q)) (scrambleOps (step F st (.select q)).doc st.handles.length
+        (clone F q.isBlob s)) = st2 at h2 hlen2 hdoc2 ⊢
+    have h3 := step_fresh F hF st2 h2.2 (.select q)
+    have hlen3 := step_length_le F st2 (.select q)
+    generalize step F st2 (.select q) = st3 at h3 hlen3 ⊢
+    have h4 := exec_fresh F hF (scrambleOpsWith mutated2 "y-mutated" st3.doc st2.handles.length (clone F q.isBlob s)) st3 h3.2
+    have hk : st.handles.length < st3.handles.length := by omega
+    have h5 := exec_other F st.handles.length
+      (scrambleOpsWith mutated2 "y-mutated" st3.doc st2.handles.length (clone F q.isBlob s)) st3 hk
+      (fun op hop => by
+        rw [scramble_onHandle _ _ _ _ _ op hop]
+        intro e
+        injection e with e
+        omega)
+    refine ⟨?_, by rw [h4.1, h3.1, hdoc2], h4.2⟩
+    have hind : readHandle (exec F st3 (scrambleOpsWith mutated2 "y-mutated" st3.doc st2.handles.length (clone F q.isBlob s)))
+        st.handles.length = readHandle st3 st.handles.length := by
+      unfold readHandle
+      rw [h5, h4.1]
+    simp only [(clone_fresh F hF q.isBlob s _).2, hind]
     have hmem : s ∈ d := selectQ_mem d q s hs
     simp [hmem]
 
@@ -603,7 +735,8 @@ theorem pureQ_selected (d : List Stmt) (q : Query) (rej : Bool) (v s : Text) :
     (pureQ d q rej v s).selected = nameOf (selectQ d q) ∧ (pureQ d q rej v s).refRejected = rej ∧
     (pureQ d q rej v s).reversedSelected = nameOf (selectQ d.reverse q) ∧
     (pureQ d q rej v s).viaVerify = v ∧ (pureQ d q rej v s).viaSkip = s ∧
-    (pureQ d q rej v s).copyEqual = true ∧ (pureQ d q rej v s).intact = true := by
+    (pureQ d q rej v s).copyEqual = true ∧ (pureQ d q rej v s).intact = true ∧
+    (pureQ d q rej v s).independent = true := by
   unfold pureQ
   cases selectQ d q <;> simp [nameOf]
 
